@@ -718,3 +718,55 @@ def rehoming_rules(ctx, rule_order, rule_key):
   ctx.check(okk, rule_key, construct(f), 'method overrides are stored under the attribute name the class uses for the method',
             'a method override is stored under a key other than the class attribute name: a method registered under a different Gin name is not overridden in '
             'the configurable class, so its bindings are never injected', f.loc(), instance='override-key')
+
+
+def factory_state_rule(ctx, rule):
+  from ..lib import in_subtree
+  """No per-call scratch state may live in the wrapper factory: an object created once per configurable in
+  `_make_gin_wrapper` and *mutated* by `gin_wrapper` is shared by every call of that configurable, in every thread."""
+  prog = ctx.prog
+  fac = ctx.func('config._make_gin_wrapper')
+  wr = ctx.func('config._make_gin_wrapper.gin_wrapper')
+  _MUT = {'update', 'setdefault', 'clear', 'pop', 'popitem', 'append', 'add', 'extend', 'insert', 'remove', 'discard', 'sort', 'reverse'}
+  made = {}
+  for a in walk_local(fac.node):
+    if isinstance(a, ast.Assign) and len(a.targets) == 1 and isinstance(a.targets[0], ast.Name) and not in_subtree(a, wr.node):
+      v = a.value
+      kind = None
+      if isinstance(v, (ast.Dict, ast.List, ast.Set, ast.ListComp, ast.DictComp, ast.SetComp)):
+        kind = 'container'
+      elif isinstance(v, ast.Call):
+        q = prog.resolve_call(fac, v)
+        cobj = prog.ix.get(q) if q else None
+        if cobj is not None and cobj.__class__.__name__ == 'Class':
+          kind = cobj
+        elif u(v.func) in ('dict', 'list', 'set', 'collections.defaultdict', 'collections.OrderedDict', 'collections.deque'):
+          kind = 'container'
+        elif q and q.startswith('config.'):
+          # the result of a helper that returns a dict / list it built is a container as well
+          cf = prog.ix.get(q)
+          rets = [r.value for r in ast.walk(cf.node) if isinstance(r, ast.Return) and r.value is not None] if hasattr(cf, 'node') and hasattr(cf, 'params') else []
+          if rets and all(isinstance(r, ast.Name) for r in rets):
+            kind = 'container'
+      if kind is not None:
+        made[a.targets[0].id] = (kind, a)
+  bad = []
+  for n in walk_local(wr.node):
+    # X[...] = v / del X[...] / X.attr = v
+    if isinstance(n, (ast.Subscript, ast.Attribute)) and isinstance(n.ctx, (ast.Store, ast.Del)) and isinstance(n.value, ast.Name) and n.value.id in made:
+      bad.append((n.value.id, n, 'written to'))
+    if isinstance(n, ast.Call) and isinstance(n.func, ast.Attribute) and isinstance(n.func.value, ast.Name) and n.func.value.id in made:
+      nm = n.func.value.id
+      kind = made[nm][0]
+      if kind == 'container' and n.func.attr in _MUT:
+        bad.append((nm, n, 'mutated by .%s()' % n.func.attr))
+      elif kind != 'container':
+        m = kind.methods.get(n.func.attr)
+        if m is not None and any(isinstance(x, ast.Attribute) and isinstance(x.ctx, (ast.Store, ast.Del)) and isinstance(x.value, ast.Name) and x.value.id == 'self'
+                                 for x in walk_local(m.node)):
+          bad.append((nm, n, 'changed by its method %s(), which stores attributes on the object' % n.func.attr))
+  ctx.check(not bad, rule, construct(wr),
+            'nothing created once per configurable in the factory is modified by a call (per-call values live in locals of gin_wrapper)',
+            '`%s` is created once per configurable in _make_gin_wrapper and %s inside gin_wrapper: all calls of the configurable, in all threads and '
+            'scopes, share that scratch state, so one call can record / use values of another' % ((bad[0][0], bad[0][2]) if bad else ('', '')),
+            wr.loc(bad[0][1]) if bad else wr.loc(), sites=len(made), instance='factory-state')
